@@ -26,13 +26,15 @@ def sh(cmd, cwd=None, timeout=1800, env=None):
 
 
 def main():
-    sid = sys.argv[1]
-    wt = "/tmp/mut/" + sid
+    args = [a for a in sys.argv[1:] if not a.startswith("--")]
+    opts = dict(a[2:].split("=", 1) for a in sys.argv[1:] if a.startswith("--") and "=" in a)
+    sid = args[0]
+    wt = os.path.join(opts.get("root", "/tmp/mut"), sid)
     seed = os.path.join(wt, "seed")
     meta = json.load(open(os.path.join(seed, "meta.json")))
     prop = meta.get("property", sid[:3])
-    props = sys.argv[2:] or [prop]
-    dest = os.path.join(VERIF, "seeded", sid)
+    props = args[1:] or [prop]
+    dest = os.path.join(VERIF, "seeded", sid + opts.get("suffix", ""))
     os.makedirs(dest, exist_ok=True)
     for f in glob.glob(os.path.join(seed, "*")):
         if os.path.isfile(f) and os.path.getsize(f) < 300000:
